@@ -226,7 +226,8 @@ impl Glyph {
             }
         }
 
-        for contour in &self.contours {
+        // contours without points are not written
+        for contour in self.contours.iter().filter(|c| !c.points.is_empty()) {
             if let Some(lib) = contour.lib() {
                 dump_lib(contour.identifier(), lib);
             }
